@@ -29,7 +29,9 @@ from fractions import Fraction
 
 from .. import attach
 from ..attach import fr, near
-from ..core import dec
+import numpy as np
+
+from ..core import dec, enc
 from ..gwl import GrammarError, parse
 from ..world import narrow_scalar
 
@@ -78,6 +80,11 @@ REL = Fraction(1, 10**9)
 # ---------------------------------------------------------------------------------------------
 # exact reference
 # ---------------------------------------------------------------------------------------------
+def _py(m):
+    """The plain Python number behind a numpy scalar (the oracle's arithmetic must not inherit a narrow dtype)."""
+    return m.item() if isinstance(m, np.generic) else m
+
+
 def _nonint(m) -> bool:
     return float(m) != int(m)
 
@@ -149,6 +156,7 @@ def _ensure_spy():
 # ---------------------------------------------------------------------------------------------
 def _judge_partition(ctx, v, m, out, exc, origin):
     """Judge one call. Returns True when the result shows the D1 mechanism."""
+    m = _py(m)
     nonint = _nonint(m)
     ctx.count("partition_calls:" + origin)
     ctx.count("max_volume:noninteger" if nonint else "max_volume:integer")
@@ -261,6 +269,24 @@ def n_cases(tier):
 
 
 def gen_case(rng, tier, index):
+    case = _gen_case(rng, tier, index)
+    m = case.get("m")
+    if isinstance(m, int) and not isinstance(m, bool) and not case.get("huge") and rng.random() < 0.07:
+        # the limit as a narrow numpy integer (read from an int8 ... uint16 configuration array): products of step
+        # counts and the limit do not fit such a type
+        fits = [t for t, hi in (("int8", 127), ("uint8", 255), ("int16", 32767), ("uint16", 65535)) if m <= hi]
+        if fits:
+            case["m"] = {"__npint__": [rng.choice(fits[:2]), m]}
+            case["narrow_limit"] = True
+    if case.get("kind") == "transfer" and case.get("auto_split") and not case.get("huge") and rng.random() < 0.06:
+        # the worklist has split a transfer before, under another step limit; the limit was re-assigned since
+        fm = float(m)
+        m0 = rng.choice([x for x in (200, 950, 50, 1000, 300.5) if x != fm])
+        case["earlier"] = [m0, rng.choice([2.5 * m0, 3 * m0 + 1, 0.5 * m0, 7.25 * m0])]
+    return case
+
+
+def _gen_case(rng, tier, index):
     r = rng.random()
     m = _gen_m(rng)
     if rng.random() < 0.03:
@@ -355,10 +381,11 @@ def _run_evo_step(ctx, case):
     (InvalidOperationError), whatever auto_split says."""
     import robotools
 
-    m = dec(case["m"])
+    m_lib = dec(case["m"])
+    m = _py(m_lib)
     k = int(case["k"])
     vols = [float(x) for x in case["vols"]]
-    wl = robotools.EvoWorklist(max_volume=m, auto_split=bool(case["auto_split"]))
+    wl = robotools.EvoWorklist(max_volume=m_lib, auto_split=bool(case["auto_split"]))
     p = robotools.Labware("P", 8, 2, min_volume=0, max_volume=1e9, initial_volumes=1e8 if case["ep"] == "evo_aspirate" else 0)
     wells = [f"{'ABCDEFGH'[i]}01" for i in range(k)]
     v_arg = vols[0] if k == 1 and case.get("scalar") else list(vols)
@@ -393,12 +420,13 @@ def _run_helper(ctx, case):
     import robotools.worklists.utils as U
 
     att = _ensure_spy()
-    m = dec(case["m"])
+    m_lib = dec(case["m"])
+    m = _py(m_lib)
     vs = [dec(v) for v in case["vs"]]
     nontrivial = False
     for v in vs:
         try:
-            out, exc = U.partition_volume(v, max_volume=m), None
+            out, exc = U.partition_volume(v, max_volume=m_lib), None
         except Exception as e:
             out, exc = None, e
         _judge_partition(ctx, v, m, out, exc, "direct")
@@ -407,7 +435,7 @@ def _run_helper(ctx, case):
             # pair must get the full list of steps again
             out.clear()
             try:
-                again, exc2 = U.partition_volume(v, max_volume=m), None
+                again, exc2 = U.partition_volume(v, max_volume=m_lib), None
             except Exception as e:
                 again, exc2 = None, e
             ctx.count("helper_asked_again_after_consuming_the_result")
@@ -441,17 +469,29 @@ def _run_transfer(ctx, case):
 
     att = _ensure_spy()
     dev = case["device"]
-    m = dec(case["m"])
+    m_lib = dec(case["m"])
+    m = _py(m_lib)
     v = dec(case["v"])
     auto = bool(case["auto_split"])
     nonint = _nonint(m)
     cls = robotools.EvoWorklist if dev == "evo" else robotools.FluentWorklist
-    wl = _make_wl(cls, case, m, auto)
     if case.get("src") == "trough":
         src = robotools.Trough("SRC", 8, 1, min_volume=0, max_volume=1e9, initial_volumes=1e8)
     else:
         src = robotools.Labware("SRC", 2, 2, min_volume=0, max_volume=1e9, initial_volumes=1e8)
     dst = robotools.Labware("DST", 2, 2, min_volume=0, max_volume=1e9)
+    n0 = 0
+    if case.get("earlier"):
+        m0, v0 = case["earlier"]
+        wl = cls(max_volume=m0, auto_split=True)
+        wl.transfer(src, "A01", dst, "A01", v0)
+        wl.max_volume = m_lib
+        n0 = len(wl)
+        ctx.count("limit_reassigned_after_an_earlier_split_transfer")
+    else:
+        wl = _make_wl(cls, case, m_lib, auto)
+    if case.get("narrow_limit"):
+        ctx.count("limit_is_a_narrow_numpy_integer:transfer")
     log = att.spy_log.setdefault(SPY, [])
     log.clear()
     exc = None
@@ -465,7 +505,7 @@ def _run_transfer(ctx, case):
         ctx.count("transfer_above_the_per_record_volume_limit")
     calls = list(log)
     log.clear()
-    records = list(wl)
+    records = list(wl)[n0:]
     ctx.count(f"transfers:{dev}")
     ctx.count("transfers:noninteger_max" if nonint else "transfers:integer_max")
     # the real partition_volume calls of this transfer, judged by oracle (a)
@@ -542,12 +582,13 @@ def _run_transfer_multi(ctx, case):
     import robotools
 
     dev = case["device"]
-    m = dec(case["m"])
+    m_lib = dec(case["m"])
+    m = _py(m_lib)
     vs = [float(dec(v)) for v in case["vs"]]
     n = len(vs)
     nonint = _nonint(m)
     cls = robotools.EvoWorklist if dev == "evo" else robotools.FluentWorklist
-    wl = _make_wl(cls, case, m, True)
+    wl = _make_wl(cls, case, m_lib, True)
     src = robotools.Labware("SRC", 8, 2, min_volume=0, max_volume=1e9, initial_volumes=1e8)
     dst = robotools.Labware("DST", 8, 3, min_volume=0, max_volume=1e9)
     rows = "ABCDEFGH"
@@ -635,12 +676,13 @@ def _judge_r(ctx, case, records, m, vol, req, what):
 def _run_rd(ctx, case):
     import robotools
 
-    m, vol_arg, req = dec(case["m"]), dec(case["volume"]), int(case["multi_disp"])
+    m_lib, vol_arg, req = dec(case["m"]), dec(case["volume"]), int(case["multi_disp"])
+    m = _py(m_lib)
     vol = float(vol_arg)
     if type(vol_arg).__module__ == "numpy":
         ctx.count("volume_as_" + type(vol_arg).__name__)
     cls = {"base": robotools.BaseWorklist, "evo": robotools.EvoWorklist, "fluent": robotools.FluentWorklist}[case["cls"]]
-    wl = cls(max_volume=m)
+    wl = cls(max_volume=m_lib)
     for bv, bm in case.get("before", ()):
         try:
             wl.reagent_distribution("SRC", 1, 8, "OTHER", 1, 96, volume=bv, multi_disp=bm)
@@ -678,11 +720,12 @@ def _run_rd(ctx, case):
 def _run_distribute(ctx, case):
     import robotools
 
-    m, vol_arg, req = dec(case["m"]), dec(case["volume"]), int(case["multi_disp"])
+    m_lib, vol_arg, req = dec(case["m"]), dec(case["volume"]), int(case["multi_disp"])
+    m = _py(m_lib)
     vol = float(vol_arg)
     dev = case["device"]
     cls = robotools.EvoWorklist if dev == "evo" else robotools.FluentWorklist
-    wl = cls(max_volume=m)
+    wl = cls(max_volume=m_lib)
     src = robotools.Trough("SRC", 8, 2, min_volume=0, max_volume=1e9, initial_volumes=1e8)
     dst = robotools.Labware("DST", 8, 12, min_volume=0, max_volume=1e9)
     n_dst = int(case["n_dst"])
